@@ -159,8 +159,10 @@ def scale_metamorphic(ctx, stream, count, rng):
         if why:
             bad += 1
             ctx.checker_false += 1
+            # known class (narrowed after the C12 fix: commit): only a crash at one scale vs an answer at the other
+            crash = (base[0] == 'err') != (sc[0] == 'err')
             ctx.report(stream, case, str(sc[1:]), str(base[1:]), '%s: %s' % (e['name'], why),
-                       known_class=lambda c, io, mo: 'C11-mj-default-scale' if c.get('evaluator') == 'mj_default' else None)
+                       known_class=lambda c, io, mo, crash=crash: 'C11-mj-default-scale' if c.get('evaluator') == 'mj_default' and crash else None)
         elif len(ctx.samples) < 3 and tie and k > 2 ** 53:
             ctx.samples.append(dict(stream=stream, case=case, impl=str(sc[1]), model='same as unscaled: ' + str(base[1])))
     ctx.streams[stream] = dict(cases=n, deviations=bad)
@@ -193,9 +195,10 @@ def exhaustive_small(ctx, stream):
                         if base[0] != sc[0] or b != s2:
                             bad += 1
                             ctx.checker_false += 1
+                            crash = (base[0] == 'err') != (sc[0] == 'err')
                             ctx.report(stream, dict(kind='scale', evaluator=name, profile=prof, n=seats, k=jq(q(k))), str(sc[1:]), str(base[1:]),
                                        '%s: outcome changes under %s-fold scaling' % (name, k),
-                                       known_class=lambda c, io, mo: 'C11-mj-default-scale' if c.get('evaluator') == 'mj_default' else None)
+                                       known_class=lambda c, io, mo, crash=crash: 'C11-mj-default-scale' if c.get('evaluator') == 'mj_default' and crash else None)
     ctx.dist['stream:' + stream] += n
     ctx.streams[stream] = dict(cases=n, deviations=bad, exhaustive=True)
 
